@@ -2005,6 +2005,26 @@ def sym_isclose(a, b, rtol=1e-05, atol=1e-08, equal_nan=False):
     return _elementwise2(as_symarr(a), as_symarr(b), op, "bool")
 
 
+def sym_array_equal(a1, a2, equal_nan=False):
+    """np.array_equal: same shape and all entries equal (exact ALL-reduction; same view of the same buffer: True)"""
+    if not _has_sym(a1, a2):
+        return _np.array_equal(a1, a2, equal_nan=equal_nan)
+    a, b = as_symarr(a1), as_symarr(a2)
+    if a.ndim != b.ndim:
+        return False
+    for sa, sb in zip(a.shape, b.shape):
+        if not same_size(sa, sb):
+            return False
+    if a._buf is b._buf and a._vaxes == b._vaxes and a._fixed == b._fixed:
+        return True
+    eq = _elementwise2(a, b, lambda x, y: x == y, "bool")
+    if not isinstance(eq, SymArr):
+        return eq
+    app = _opaque_reduction("ALL", eq)
+    _install_all_trigger(app, eq)
+    return wrap(app)
+
+
 def sym_transpose(a, axes=None):
     if not _has_sym(a):
         return _np.transpose(a, axes)
@@ -2361,6 +2381,7 @@ _FUNC_IMPL = {
     _np.concatenate: sym_concatenate,
     _np.allclose: sym_allclose,
     _np.isclose: sym_isclose,
+    _np.array_equal: sym_array_equal,
     _np.zeros_like: sym_zeros_like,
     _np.full_like: sym_full_like,
     _np.copy: lambda a, **kw: a.copy(),
@@ -2429,6 +2450,7 @@ class NPShim:
     concatenate = staticmethod(sym_concatenate)
     allclose = staticmethod(sym_allclose)
     isclose = staticmethod(sym_isclose)
+    array_equal = staticmethod(sym_array_equal)
     diag_indices = staticmethod(sym_diag_indices)
     ndindex = staticmethod(sym_ndindex)
     transpose = staticmethod(sym_transpose)
